@@ -235,12 +235,13 @@ class Driver:
         self.n += 1
         self.p.stdin.write(line + "\n")
         self.p.stdin.flush()
-        ready, _, _ = select.select([self.p.stdout], [], [], timeout or self.TIMEOUT)
+        limit = timeout or float(os.environ.get("VERIF_DRIVER_TIMEOUT", self.TIMEOUT))
+        ready, _, _ = select.select([self.p.stdout], [], [], limit)
         if not ready:
             self.p.kill()
             self.p.wait()
             self._start()        # later requests go to a fresh driver
-            raise DriverTimeout("driver did not answer within %.0f s: %s" % (timeout or self.TIMEOUT, line[:200]))
+            raise DriverTimeout("driver did not answer within %.0f s: %s" % (limit, line[:200]))
         out = self.p.stdout.readline()
         if not out:
             raise InfraError("driver died on: " + line[:300])
